@@ -29,4 +29,17 @@ Definition adept_band_mv (row_major : bool) (L U dim : Z) (mem : Z -> T) (left_p
 Definition band_mv_spec (row_major : bool) (L U dim : Z) (mem : Z -> T) (left_ptr left_offset x0 incx : Z) (i : Z) : T :=
   let e := if row_major then BandR else BandC in
   zsum dim (fun j => if stored e L U i j then omul O (mem (left_ptr + index e L U i j left_offset)) (mem (x0 + j * incx)) else o0 O).
+
+(* ---- symmetric matrix x vector: ?symv reads only the triangle [upper] of the column-major n x n matrix at a0 (leading
+   dimension lda) and mirrors it; y(i) = sum_j A(i,j) x(j) *)
+Definition symv_read (upper : bool) (mem : Z -> T) (a0 lda i j : Z) : T :=
+  if upper then (if i <=? j then mem (a0 + i + j * lda) else mem (a0 + j + i * lda))
+  else (if j <=? i then mem (a0 + i + j * lda) else mem (a0 + j + i * lda)).
+Definition f_symv_cell (upper : bool) (n : Z) (mem : Z -> T) (a0 lda x0 incx : Z) (i : Z) : T :=
+  zsum n (fun j => omul O (symv_read upper mem a0 lda i j) (mem (x0 + j * incx))).
+Definition adept_symm_mv (row_lower_col_upper : bool) (n : Z) (mem : Z -> T) (left_ptr left_offset x0 incx : Z) (i : Z) : T :=
+  f_symv_cell (symv_wrapper_uplo symv_call_row_major (symv_uplo_of_orient row_lower_col_upper)) n mem left_ptr (symv_lda left_offset) x0 incx i.
+Definition symm_mv_spec (row_lower_col_upper : bool) (n : Z) (mem : Z -> T) (left_ptr left_offset x0 incx : Z) (i : Z) : T :=
+  let e := if row_lower_col_upper then SymLo else SymUp in
+  zsum n (fun j => omul O (mem (left_ptr + index e 0 0 i j left_offset)) (mem (x0 + j * incx))).
 End Band.
